@@ -3471,6 +3471,19 @@ class StateEngine(object):
             input is the result, and whose payload replaces and becomes the
             effective result.
             """
+            """
+            If that fails the Map or Parallel state itself fails, subject to
+            its Retry/Catch, so as for a failed Branch first reset the event
+            data back to the original Map or Parallel state input and restore
+            the retry info of the Map or Parallel state itself.
+            """
+            event["data"] = data
+            context_state.pop("RetryCount", None)
+            context_state.pop("RetryTimeout", None)
+            if retry_count:
+                context_state["RetryCount"] = retry_count
+            if retry_timeout:
+                context_state["RetryTimeout"] = retry_timeout
             try:
                 result = evaluate_payload_template(
                     result, context, state.get("ResultSelector")
